@@ -76,6 +76,8 @@ func runC16(c *Ctx) {
 	n := c.Q(120, 12000)
 	Par(n, func(i int) { runC16History(c, i) })
 	runC16Tamper(c)
+	rep.Require("connections/must", 20)
+	rep.Require("resumed_sessions_decoded_under_original_master", 10)
 }
 
 func c16MkServer(pki *tlsPKI, gm bool, r *mon.RNG, name string, klog *keyLog, stdPool *gx509.CertPool) *c16Server {
